@@ -34,7 +34,8 @@ Tokens == <<
   <<49,46,53>>, <<97>>, <<42>>, <<91>>, <<63>>, <<92>>,   \* 1.5 a * [ ? \
   L_nx, L_xx, L_ex, L_px, L_get, L_keepttl, L_withscores, L_rank, L_count, L_maxlen, L_minid, L_left, L_right, L_limit,
   L_ch, L_incr, L_rev, L_nomkstream, L_withvalues,
-  L_dash, L_plus, <<53,45,49>>, L_tilde, L_eq, L_star \o <<120>>, <<13,10>>, <<105,110,102>>, <<110,97,110>>   \* - + 5-1 ~ = *x CRLF inf nan
+  L_dash, L_plus, <<53,45,49>>, L_tilde, L_eq, L_star \o <<120>>, <<13,10>>, <<105,110,102>>, <<110,97,110>>,   \* - + 5-1 ~ = *x CRLF inf nan
+  <<13>>, <<10>>, <<120,13,13,10,10,43,79,75>>     \* bare CR, bare LF, "x\r\r\n\n+OK" (a line break left behind when only CR LF pairs are stripped)
 >>
 
 RangeSeq(q) == {q[i] : i \in 1..Len(q)}
